@@ -41,12 +41,19 @@ def run_kani(harness_text, harnesses, features='all_msgs', jobs=16, timeout=3600
         cmd += ['--harness', h]
     cmd += list(extra)
     t0 = time.time()
+    import signal
+    proc = subprocess.Popen(cmd, cwd=rc, stdout=subprocess.PIPE, stderr=subprocess.PIPE, text=True, env=env, start_new_session=True)
     try:
-        p = subprocess.run(cmd, cwd=rc, capture_output=True, text=True, env=env, timeout=timeout)
-        out = p.stdout + '\n' + p.stderr
+        so, se = proc.communicate(timeout=timeout)
+        out = so + '\n' + se
         timed_out = False
-    except subprocess.TimeoutExpired as e:
-        out = (e.stdout or b'').decode('utf8', 'replace') + '\n' + (e.stderr or b'').decode('utf8', 'replace')
+    except subprocess.TimeoutExpired:
+        try:
+            os.killpg(proc.pid, signal.SIGKILL)     # cargo-kani, kani-driver and every cbmc child
+        except Exception:
+            pass
+        so, se = proc.communicate()
+        out = (so or '') + '\n' + (se or '')
         timed_out = True
     wall = time.time() - t0
     res = {}
